@@ -81,6 +81,35 @@ func hSuffix(ws []*hHW, all *[2 * hDumpH]Entity, nall *int, op int, k int) {
 		*nall++
 		return
 	}
+	if op == 2 { // batch creation of two entities (pops recycled ids first, then fresh ones)
+		var firstPair [2]Entity
+		for i, y := range ws {
+			var before [2 * hDumpH]bool
+			for j := 0; j < *nall; j++ {
+				before[j] = y.w.Alive(all[j])
+			}
+			q := NewBuilder(&y.w).NewBatchQ(2)
+			var pair [2]Entity
+			c := 0
+			for q.Next() {
+				if c < 2 {
+					pair[c] = q.Entity()
+				}
+				c++
+			}
+			vAssert(c == 2, "batch creation in a loaded world creates the requested entities")
+			if i == 0 {
+				firstPair = pair
+			} else {
+				vAssert(pair == firstPair, "original and loaded worlds issue identical handles in batch creation")
+			}
+			_ = before
+		}
+		vBound(*nall+1 < 2*hDumpH, "handles<=16")
+		all[*nall], all[*nall+1] = firstPair[0], firstPair[1]
+		*nall += 2
+		return
+	}
 	// remove: pick the k-th handle that is alive in the first world
 	cnt := 0
 	for i := 0; i < *nall; i++ {
@@ -166,7 +195,7 @@ func HC17_DumpLoad() {
 	}
 	steps := 2 + vTier()
 	for s := 0; s < steps; s++ {
-		op := vChoice("suffix", 2)
+		op := vChoice("suffix", 3)
 		k := 0
 		if op == 1 {
 			k = vChoice("which", 2+2*vTier())
